@@ -276,4 +276,78 @@ theorem wrap_fits_flatten (cw : Char → Nat) (hard : Nat) (line : Str) (hp : Pl
 example : ((LW.new 13).wrap (fun _ => 1) (findWords "aaa  bbb ccc ".toList)).2.flatten = "aaa  bbb ccc ".toList := by decide
 example : ((LW.new 11).wrap (fun _ => 1) (findWords "aaa  bbb ccc ".toList)).2.flatten ≠ "aaa  bbb ccc ".toList := by decide
 
+/-! #### 6. the same for any text, in the wrapper's own measure -/
+
+/-- what `LineWrapper::wrap` adds to `line_width` for a word: the display width of the trimmed word plus the trimmed bytes -/
+def wordCost (cw : Char → Nat) (w : Str) : Nat := displayWidth cw (trimEnd w) + (byteLen w - byteLen (trimEnd w))
+
+def lineCost (cw : Char → Nat) (line : Str) : Nat := ((findWords line).map (wordCost cw)).sum
+
+/-- for ANY words - wide, zero-width, control characters, escape sequences included: while the wrapper's own measure of
+what is left fits, the loop appends and never breaks -/
+theorem wrapLoop_fits_any (cw : Char → Nat) : ∀ (ws : List Str) (st : LW) (first : Bool) (acc : List Str),
+    st.lineWidth + (ws.map (wordCost cw)).sum ≤ st.hard →
+    wrapLoop cw st first acc ws =
+      ({ st with lineWidth := st.lineWidth + (ws.map (wordCost cw)).sum }, ws.reverse ++ acc) := by
+  intro ws
+  induction ws with
+  | nil => intro st first acc _; simp [wrapLoop]
+  | cons w ws ih =>
+    intro st first acc hfit
+    simp only [List.map_cons, List.sum_cons, wordCost] at hfit
+    have hno : ¬ (st.hard < st.lineWidth + displayWidth cw (trimEnd w)) := by omega
+    unfold wrapLoop
+    simp only [hno, decide_false, Bool.and_false, Bool.false_eq_true, ↓reduceIte]
+    rw [ih _ false (w :: acc) (by simp only; omega)]
+    simp only [List.map_cons, List.sum_cons, List.reverse_cons, List.append_assoc, List.singleton_append, wordCost]
+    congr 2
+    omega
+
+theorem wrap_line_fits_any (cw : Char → Nat) (hard : Nat) (line : Str) (hfit : lineCost cw line ≤ hard) :
+    ((LW.new hard).wrap cw (findWords line)).2 = findWords line := by
+  unfold LW.wrap
+  unfold lineCost at hfit
+  cases hws : findWords line with
+  | nil => simp [LW.new, wrapLoop]
+  | cons w0 rest =>
+    rw [hws] at hfit
+    simp only [LW.new]
+    rw [wrapLoop_fits_any cw (w0 :: rest) _ true [] (by simp only; omega)]
+    simp
+
+/-- **`textwrap::wrap` is the identity on text every line of which fits** - any characters, any number of lines, the
+line terminators included (a trailing `"\n"` is trimmed from the last word's width and counted in bytes, as the code does) -/
+theorem wrap_fits_identity (cw : Char → Nat) (content : Str) (hard : Nat)
+    (hfit : ∀ line ∈ splitInclusive content, lineCost cw line ≤ hard) :
+    wrap cw content hard = content := by
+  have aux : ∀ lines : List Str, (∀ l ∈ lines, lineCost cw l ≤ hard) → (wrapLines cw hard lines).flatten = lines.flatten := by
+    intro lines
+    induction lines with
+    | nil => intro _; simp [wrapLines]
+    | cons l ls ih =>
+      intro h
+      simp only [wrapLines, List.flatten_append, List.flatten_cons]
+      rw [wrap_line_fits_any cw hard l (h l List.mem_cons_self), findWords_flatten,
+        ih (fun x hx => h x (List.mem_cons_of_mem _ hx))]
+  unfold wrap
+  rw [aux _ hfit, splitInclusive_flatten]
+
+/-- on plain text the wrapper's measure of a line is its length (so `wrap_fits_unchanged` is the plain instance) -/
+theorem lineCost_plain (cw : Char → Nat) (line : Str) (hp : Plain cw line) : lineCost cw line = line.length := by
+  have hwords := findWords_plain cw line hp
+  have hsum : ((findWords line).map List.length).sum = line.length := by
+    have := congrArg List.length (findWords_flatten line)
+    simpa [List.length_flatten] using this
+  unfold lineCost
+  rw [← hsum]
+  congr 1
+  apply List.map_congr_left
+  intro w hw
+  exact plain_word_cost cw w (hwords w hw)
+
+/-- non-vacuity: two lines with a wide character (two columns) fit width 6 and come back unchanged; at width 4 the first line is broken -/
+example : (∀ line ∈ splitInclusive "ab 世\ncd".toList, lineCost (fun c => if c == '世' then 2 else 1) line ≤ 6) ∧
+    wrap (fun c => if c == '世' then 2 else 1) "ab 世\ncd".toList 6 = "ab 世\ncd".toList := by decide
+example : wrap (fun c => if c == '世' then 2 else 1) "ab 世\ncd".toList 4 = "ab\n世\ncd".toList := by decide
+
 end Clap.C20
